@@ -6,6 +6,7 @@ general behaviour the trait allows: it appends some bytes to the buffer it was h
 and then answers Ok or Err — with an error of ANY kind (every question the code asks about the error is answered
 arbitrarily).  Decided: on Err the buffer and the element count are exactly what they were; on Ok the count grew by one and
 the old bytes are an untouched prefix; a full list (65535 values) is refused without touching anything; no panic."""
+import re
 import z3
 from mir2smt import dump, mir, solve, oblig, rustenum, stdmodels as sm, itermodels as im
 from mir2smt.mir import Int, Bool, Tup, Enum, Ref, Cell, Seq, Opaque, Unit
@@ -301,6 +302,71 @@ def replay_empty_de(m):
     nat.close()
     return native.record("C17", "maybe_empty_deserialize", {"model": {k: str(v) for k, v in m.items()}, "expected": want, "native": got}, got != want)
 
+# ---------------------------------------------------------------------------------------------------- native carriers against ANY column type
+CARRIERS = {"i8": ["TinyInt"], "i16": ["SmallInt"], "i32": ["Int"], "i64": ["BigInt"], "f32": ["Float"], "f64": ["Double"], "bool": ["Boolean"],
+            "value::Counter": ["Counter"], "CqlDate": ["Date"], "CqlTime": ["Time"], "CqlTimestamp": ["Timestamp"], "uuid::Uuid": ["Uuid"], "CqlTimeuuid": ["Timeuuid"]}
+
+
+def carrier_vs_any_column(ctx, core, reg, carrier, accepted):
+    """the matrix row of one fixed-size carrier extended to NON-NATIVE columns: the column type is any ColumnType variant x any native type"""
+    short = carrier.split("::")[-1]
+    name = f"c17_row_{short}_is_bound_only_to_{'_'.join(a.lower() for a in accepted)}_among_all_column_types"
+    if ctx.skip(name):
+        return
+    ct, nt = reg.get("ColumnType"), reg.get("NativeType")
+    fn = core.find(r"value\.rs[^>]*>::serialize\(_1: &" + re.escape(carrier) + r", _2: &ColumnType")
+    typ, kind, nat, pre, _ = symbolic_column_type(reg)
+    m = {}
+    m.update(sm.SLICE_MODELS)
+    def set_value(it, p, callee, args):
+        sm.deref(args[0].f[0]).items.append(Opaque("cell")); return Enum(Int(bv(0, 64), 64, True), {0: Tup([Opaque("proof")])}, RESULT, "Result")
+    m[r"^CellWriter::<'_>::set_value$"] = set_value
+    m[r"^Result::<WrittenCellProof<'_>, CellOverflowError>::unwrap$"] = lambda it, p, c, a: a[0].payloads[0].f[0]
+    m[r"mk_typck_err::<"] = sm.m_opaque("typck-error")
+    m[r"to_be_bytes$"] = sm.m_opaque("big-endian bytes")
+    m[r"as_slice$|as_bytes$|(^|::)to_bits$|>::as_ref$"] = sm.m_opaque("bytes of the value")
+    m[r"^<[\w:]+ as (Into|From)<.*>>::(into|from)$"] = sm.m_opaque("converted value")
+    buf = Cell(Seq([]))
+    it = mir.Interp(core, mir.BVBackend(), m, registry=reg, max_steps=4000)
+    shapes = {"bool": lambda: Bool(z3.Bool("the_value")), "value::Counter": lambda: Tup([Int(z3.BitVec("the_value", 64), 64, True)], "Counter"),
+              "CqlDate": lambda: Tup([Int(z3.BitVec("the_value", 32), 32, False)], "CqlDate"), "CqlTime": lambda: Tup([Int(z3.BitVec("the_value", 64), 64, True)], "CqlTime"),
+              "CqlTimestamp": lambda: Tup([Int(z3.BitVec("the_value", 64), 64, True)], "CqlTimestamp"),
+              "uuid::Uuid": lambda: Tup([Opaque("16 bytes")], "Uuid"), "CqlTimeuuid": lambda: Tup([Tup([Opaque("16 bytes")], "Uuid")], "CqlTimeuuid")}
+    value = shapes.get(carrier, lambda: Opaque("the value"))()
+    paths = it.run(fn, [Ref(Cell(value)), Ref(Cell(typ)), Tup([Ref(buf)], "CellWriter")], pre)
+    fits = z3.And(kind == ct.discr("Native"), z3.Or([nat == nt.discr(a) for a in accepted]))
+    goals, cover = [], []
+    for p in paths:
+        pc = z3.And(p.pc[len(pre):]) if len(p.pc) > len(pre) else z3.BoolVal(True)
+        if p.outcome[0] != "return":
+            goals.append(z3.Implies(fits, z3.BoolVal(True)) if False else z3.Implies(pc, fits)); continue       # a panic while writing an ACCEPTED value is C01's subject; on a mismatch it is a violation
+        cover.append(pc)
+        r = p.outcome[1]
+        n_written = len(sm.deref(p.locals[3].v.f[0]).items)
+        goals.append(z3.Implies(pc, z3.And((r.discr.t == 0) == fits, z3.Implies(r.discr.t == 1, z3.BoolVal(n_written == 0)), z3.Implies(r.discr.t == 0, z3.BoolVal(n_written == 1)))))
+    goals.append(z3.Or(cover) if cover else z3.BoolVal(False))
+    ctx.prove(name, pre, z3.And(goals), inputs=[kind, nat],
+              functions=f"<{carrier} as SerializeValue>::serialize [scylla-cql-core/src/serialize/value.rs]",
+              bounds=f"carrier {carrier}; the column type is ANY of the ColumnType variants (collections, vectors, tuples, UDTs with arbitrary contents included) x ANY native type, both symbolic: "
+                     f"the value is bound iff the column is native {' / '.join(accepted)}; a refusal writes nothing, an acceptance writes exactly one cell",
+              backend="BV", assumes="the bytes of the value are opaque (their content is C01's subject); CellWriter::set_value = one cell appended; mk_typck_err opaque", witness=True,
+              outside="the cell's bytes (C01), variable-size carriers (engine K's matrix over native columns)",
+              replay=lambda m_, short=short, accepted=accepted: replay_row(m_, ct, nt, short, accepted))
+
+
+def replay_row(m, ct, nt, short, accepted):
+    from . import native
+    k, n = int(m.get("column_type_variant") or 0), int(m.get("native_type") or 0)
+    kname = next((v[0] for v in ct.variants if v[1] == k), "Native")
+    nname = next((v[0] for v in nt.variants if v[1] == n), "Int")
+    what = nname if kname == "Native" else kname
+    want = "BOUND 1" if what in accepted else "REFUSED"
+    nat = native.Native("core")
+    got = nat.ask(f"bindrow {short} {what}")
+    nat.close()
+    return native.record("C17", f"row_{short}", {"carrier": short, "column_type": what, "expected": want, "native": got}, got != want)
+
+
 def replay_empty(m, ct, nt):
     from . import native
     k, n = int(m.get("column_type_variant") or 0), int(m.get("native_type") or 0)
@@ -334,6 +400,11 @@ def run(tier, seed, only):
         empty_support(ctx, core, reg)
         maybe_empty_carrier(ctx, core, reg)
         maybe_empty_deserialize(ctx, core, reg)
+        for carrier, accepted in CARRIERS.items():
+            try:
+                carrier_vs_any_column(ctx, core, reg, carrier, accepted)
+            except mir.Unsupported as e:
+                ctx.add(name=f"smt:c17_translate_row_{carrier.split('::')[-1]}", engine="smt:mir2smt", status="inconclusive", reason="translator rejected the current source: " + str(e), functions="scylla-cql-core/src/serialize/value.rs")
     except mir.Unsupported as e:
         ctx.add(name="smt:c17_translate_empty_support", engine="smt:mir2smt", status="inconclusive", reason="translator rejected the current source: " + str(e), functions=RESULT_RS)
     except (AttributeError, KeyError, IndexError, TypeError, ValueError) as e:
